@@ -220,7 +220,7 @@ def scene_manager(ctx, d):
 # ---- exhaustive rankings: results at fixed distances, thresholds 0 <= 0.5 <= 1.0 <= 5.0 ---------------
 
 _RC = {}
-SYM = {"A": (0.2, 0.0), "B": (0.8, 0.0), "C": (3.0, 0.0), "H": (0.8, 1.5707963267948966), "F": None}
+SYM = {"A": (0.2, 0.0), "B": (0.8, 0.0), "C": (3.0, 0.0), "H": (0.8, 1.5707963267948966), "Q": (0.8, 2.356194490192345), "F": None}  # Q: heading 135 deg off (weight 1/4)
 
 
 def _sym_result(sym, rank):
@@ -240,7 +240,7 @@ def gen_rankings(tier):
 
     maxlen = 5 if tier == "quick" else 7
     for n in range(1, maxlen + 1):
-        for syms in itertools.product("ABCHF", repeat=n):
+        for syms in itertools.product("ABCHQF", repeat=n):
             with_gt = sum(1 for s in syms if s != "F")
             for extra in (0, 2):
                 if with_gt + extra > 0:
